@@ -11,6 +11,21 @@
 int vf_argc;
 char ** vf_argv;
 int vf_native_failures;
+unsigned long vf_native_checks, vf_native_scen, vf_native_scen_nt;
+static const char * vf_msgs[512];
+static int vf_nmsgs;
+void vf_native_note(const char * msg)
+{
+    int i;
+    for (i = 0; i < vf_nmsgs; i++) {
+        if (vf_msgs[i] == msg) {
+            return;
+        }
+    }
+    if (vf_nmsgs < 512) {
+        vf_msgs[vf_nmsgs++] = msg;
+    }
+}
 
 struct vf_harness { const char * name; void (*fn)(void); };
 extern struct vf_harness vf_harnesses[];
@@ -61,6 +76,8 @@ int main(int argc, char ** argv)
     for (h = vf_harnesses; h->name != NULL; h++) {
         if (strcmp(h->name, argv[1]) == 0) {
             h->fn();
+            printf("NATIVE-STATS: checks=%lu distinct_check_sites=%d scenarios=%lu nontrivial_scenarios=%lu\n",
+                   vf_native_checks, vf_nmsgs, vf_native_scen, vf_native_scen_nt);
             printf("NATIVE-RESULT: failures=%d\n", vf_native_failures);
             return vf_native_failures ? 1 : 0;
         }
